@@ -4,6 +4,7 @@ package main
 
 import (
 	"fmt"
+	"os"
 	"go/ast"
 	"go/token"
 	"go/types"
@@ -81,6 +82,13 @@ func (g *gen) scanEffects(blocks map[*ssa.BasicBlock]bool) *effects {
 		for _, in := range b.Instrs {
 			switch x := in.(type) {
 			case *ssa.Store:
+				if root := addrRoot(x.Addr); root != nil {
+					if al, ok := root.(*ssa.Alloc); ok && al.Heap && blocks[al.Block()] {
+						// a store into an object allocated inside the region: only fresh memory changes
+						ef.allocates = true
+						continue
+					}
+				}
 				if _, ok := x.Addr.(*ssa.FieldAddr); ok || true {
 					name, al := g.staticHeapName(x.Addr)
 					if al != nil {
@@ -284,7 +292,15 @@ func (g *gen) enterLoop(li *loopInfo, b *ssa.BasicBlock, st *state, phis []*ssa.
 	}
 	// 2. havoc
 	ef := g.scanEffects(li.body)
-	entryTop := st.top
+	if os.Getenv("YQV_DEBUG") != "" {
+		var ss []string
+		for k := range ef.strong {
+			ss = append(ss, k)
+		}
+		sort.Strings(ss)
+		fmt.Fprintf(os.Stderr, "%s loop%d: all=%v alloc=%v strong=%v\n", g.vc.Func, li.ordinal, ef.all, ef.allocates, ss)
+	}
+	_ = st.top
 	if ef.all {
 		g.newEpoch(st, func(name, r string) string { return "false" }, true)
 	} else {
@@ -297,7 +313,7 @@ func (g *gen) enterLoop(li *loopInfo, b *ssa.BasicBlock, st *state, phis []*ssa.
 			if !alloc || r == "" {
 				return "true"
 			}
-			return app("<=", r, entryTop)
+			return "weak"
 		}, alloc)
 	}
 	var cellList []*ssa.Alloc
@@ -313,6 +329,16 @@ func (g *gen) enterLoop(li *loopInfo, b *ssa.BasicBlock, st *state, phis []*ssa.
 	for _, p := range phis {
 		li.phiTerms[p] = g.vals[p]
 		g.assumeAllocated(st, g.vals[p], p.Type())
+		// a phi whose back-edge values are all the phi itself is not changed by the loop
+		unchanged := true
+		for i, ev := range p.Edges {
+			if g.back[[2]*ssa.BasicBlock{b.Preds[i], b}] && ev != ssa.Value(p) {
+				unchanged = false
+			}
+		}
+		if unchanged {
+			g.assert(sEq(g.vals[p], entryVals[p]))
+		}
 	}
 	// 3. assume invariants
 	hdrEnv := g.pointEnv(b, st, func(p *ssa.Phi) string { return g.vals[p] })
@@ -436,9 +462,7 @@ func (g *gen) buildAutoInvariants(li *loopInfo, b *ssa.BasicBlock, phis []*ssa.P
 				}
 			}
 			// range-over-slice idiom: header computes t = phi + 1; if t < len
-			if step == 0 {
-				g.rangeIdiom(li, b, p, entryVals)
-			}
+			g.rangeIdiom(li, b, p, entryVals)
 		case types.TypeString(p.Type(), nil) == "*container/list.Element":
 			// el iterates over one list: el == nil || (elList(el) == l && 0 <= elIdx(el) < len(l))
 			var l ssa.Value
@@ -540,3 +564,17 @@ func (g *gen) rangeIdiom(li *loopInfo, b *ssa.BasicBlock, p *ssa.Phi, entryVals 
 }
 
 var _ = ast.Inspect
+
+// addrRoot follows FieldAddr / IndexAddr chains to the value the address is derived from.
+func addrRoot(v ssa.Value) ssa.Value {
+	for {
+		switch a := v.(type) {
+		case *ssa.FieldAddr:
+			v = a.X
+		case *ssa.IndexAddr:
+			v = a.X
+		default:
+			return v
+		}
+	}
+}
